@@ -590,3 +590,43 @@ func (g *Graph) DeferredUnlocks() map[string]bool {
 	}
 	return out
 }
+
+// CondAtom is an atomic sub-condition with the truth value it has when the
+// enclosing condition evaluates to the requested value.
+type CondAtom struct {
+	E   ast.Expr
+	Val bool
+}
+
+// SplitCond decomposes e (through !, &&, ||) into the atoms whose value is
+// determined when e evaluates to val.
+func SplitCond(e ast.Expr, val bool) []CondAtom {
+	var tmp []struct {
+		e   ast.Expr
+		val bool
+	}
+	splitCond(e, val, &tmp)
+	out := make([]CondAtom, len(tmp))
+	for i, a := range tmp {
+		out[i] = CondAtom{a.e, a.val}
+	}
+	return out
+}
+
+// DominatedNodes lists the CFG nodes that execute only after edge k of block cb.
+func (g *Graph) DominatedNodes(cb *cfg.Block, k int) []ast.Node {
+	var out []ast.Node
+	for _, b := range g.Blocks {
+		if len(b.Nodes) == 0 {
+			continue
+		}
+		l := Loc{b, 0, b.Nodes[0].Pos()}
+		if b == cb {
+			continue
+		}
+		if g.EdgeDominates(cb, k, l) {
+			out = append(out, b.Nodes...)
+		}
+	}
+	return out
+}
